@@ -209,6 +209,11 @@ def post_ff(ip, ctx, out):
 _t0 = targets
 
 
+def post_dt_must_agree(ip, ctx, out):
+    ip.prove('cdwf/parse/dt-must-agree', z3.BoolVal(out.kind == 'raise'),
+             {'outcome': out.kind, 'required': 'an exception: the process tensors of the systems have different time steps'})
+
+
 def targets(tier='quick'):
     from . import dynf
     T = _t0(tier)
@@ -216,6 +221,9 @@ def targets(tier='quick'):
     for ns in (1, 2):
         T.append(Target('cdwf/field-sequence[nsys=%d]' % ns, 'system_dynamics.compute_dynamics_with_field',
                         dynf.cdwf_scenario(ns), post_cdwf, R, PROP, max_paths=4000, replay=replay_field))
+    # the systems are parsed one by one: when their process tensors do not agree on dt nothing may be computed on a common grid
+    T.append(Target('cdwf/parse/dt-must-agree', 'system_dynamics.compute_dynamics_with_field', dynf.cdwf_scenario(2, dt_differs=True),
+                    post_dt_must_agree, R, PROP, max_paths=400, replay=lambda ob: {'func': 'systems_of_different_length', 'inputs': {}}))
     # "a system whose Hamiltonian does not depend on the field evolves as in a plain TEMPO run": the propagators of a
     # TimeDependentSystemWithField with H'(t, a) = H(t) equal those of TimeDependentSystem(H) with the same rates and Lindblad
     # operators, for every step, field and field derivative (two-object relational contract; sampled and integrated modes)
